@@ -11,7 +11,7 @@ for i in range(1, 21):
 p = '/verif/DESIGN.md'
 s = open(p).read()
 a, b = s.index('<!-- classes:begin -->'), s.index('<!-- classes:end -->')
-tail = '\nThe classes added after the first build (seeded rounds 2–7 and the mutation sweeps) are described in §10.\n'
+tail = '\nThe classes added after the first build (seeded rounds 2–10, the option audit and the mutation sweeps) are described in §10.\n'
 s = s[:a] + '<!-- classes:begin -->\n' + '\n'.join(lines) + '\n' + tail + s[b:]
 open(p, 'w').write(s)
 print('\n'.join(lines))
